@@ -38,6 +38,18 @@ Qed.
 Lemma pow256_pow2 w : 256 ^ N.of_nat w = 2 ^ (8 * N.of_nat w).
 Proof. rewrite N.pow_mul_r. reflexivity. Qed.
 
+(* the shift-based encoder of the model is the library encoder *)
+Lemma le_enc_f_eq w n : le_enc_f w n = le_enc w n.
+Proof.
+  revert n; induction w as [|w IH]; intros n; [reflexivity|].
+  cbn [le_enc_f le_enc]. rewrite IH. f_equal.
+  - change 255 with (N.ones 8). rewrite N.land_ones. reflexivity.
+  - rewrite N.shiftr_div_pow2. reflexivity.
+Qed.
+
+Lemma be_enc_f_eq w n : be_enc_f w n = be_enc w n.
+Proof. unfold be_enc_f, be_enc. rewrite le_enc_f_eq. reflexivity. Qed.
+
 (* ====================================================================================== *)
 (* bit sizes                                                                                *)
 (* ====================================================================================== *)
@@ -75,14 +87,14 @@ Qed.
 Definition int_len (n : N) : nat := N.to_nat (N.size n / 8 + 1).
 
 Lemma der_int_content_length n : length (der_int_content n) = int_len n.
-Proof. unfold der_int_content, int_len. apply be_enc_length. Qed.
+Proof. unfold der_int_content, int_len. rewrite be_enc_f_eq. apply be_enc_length. Qed.
 
 Lemma pow2_split a b : 2 ^ (a + b) = 2 ^ a * 2 ^ b.
 Proof. apply N.pow_add_r. Qed.
 
 Lemma der_int_content_val n : der_uint_val (der_int_content n) = Some n.
 Proof.
-  unfold der_int_content.
+  unfold der_int_content. rewrite be_enc_f_eq.
   remember (N.size n / 8) as q eqn:Hq.
   assert (Hlo : 8 * q <= N.size n) by lia.
   assert (Hhi : N.size n < 8 * q + 8) by lia.
@@ -149,7 +161,7 @@ Proof. intros ->. rewrite skipn_app, Nat.sub_diag, skipn_all. reflexivity. Qed.
 Lemma read_len_bytes n rest :
   n < 2 ^ 32 -> read_len (der_len_bytes n ++ rest) = Some (n, rest).
 Proof.
-  intros Hn. unfold der_len_bytes.
+  intros Hn. unfold der_len_bytes. rewrite be_enc_f_eq.
   destruct (N.ltb_spec n 128) as [Hs|Hl].
   - cbn [app read_len]. apply N.ltb_lt in Hs. rewrite Hs. reflexivity.
   - set (k := (N.size n + 7) / 8).
@@ -239,12 +251,12 @@ Qed.
 Lemma to_bytes_be_ok v w :
   0 <= v -> 0 <= w -> v < 2 ^ (8 * w) -> to_bytes_be v w = Ok (be_enc (Z.to_nat w) (Z.to_N v)).
 Proof.
-  intros Hv Hw H. unfold to_bytes_be.
+  intros Hv Hw H. unfold to_bytes_be. rewrite Z.shiftl_1_l.
   assert (E1 : (v <? 0) || (w <? 0) = false).
   { apply orb_false_iff; split; apply Z.ltb_ge; assumption. }
   rewrite E1.
   assert (E2 : (2 ^ (8 * w) <=? v) = false) by (apply Z.leb_gt; exact H).
-  rewrite E2. reflexivity.
+  rewrite E2. rewrite be_enc_f_eq. reflexivity.
 Qed.
 
 Lemma from_bytes_be_enc v w :
@@ -257,9 +269,9 @@ Qed.
 Lemma to_bytes_be_length v w b : to_bytes_be v w = Ok b -> zlen b = w.
 Proof.
   unfold to_bytes_be. destruct ((v <? 0) || (w <? 0)) eqn:E1; [discriminate|].
-  destruct (2 ^ (8 * w) <=? v); [discriminate|]. intros H. inversion H; subst.
+  destruct (Z.shiftl 1 (8 * w) <=? v); [discriminate|]. intros H. inversion H; subst.
   apply orb_false_iff in E1 as [_ E1]. apply Z.ltb_ge in E1.
-  unfold zlen. rewrite be_enc_length. apply Z2Nat.id. exact E1.
+  unfold zlen. rewrite be_enc_f_eq, be_enc_length. apply Z2Nat.id. exact E1.
 Qed.
 
 Lemma take_app_exact {A} (a b : list A) n : n = zlen a -> take n (a ++ b) = a.
@@ -286,7 +298,7 @@ Qed.
 
 Lemma zlen_der_tlv tag c : zlen (der_tlv tag c) = tlvlen (zlen c).
 Proof.
-  unfold der_tlv, tlvlen, lenlen, der_len_bytes, nlen, zlen. cbn [length]. rewrite app_length.
+  unfold der_tlv, tlvlen, lenlen, der_len_bytes, nlen, zlen. rewrite be_enc_f_eq. cbn [length]. rewrite app_length.
   destruct (N.ltb_spec (N.of_nat (length c)) 128) as [H|H].
   - assert (E : (Z.of_nat (length c) <? 128) = true) by (apply Z.ltb_lt; lia). rewrite E. cbn [length]. lia.
   - assert (E : (Z.of_nat (length c) <? 128) = false) by (apply Z.ltb_ge; lia). rewrite E.
@@ -1015,3 +1027,184 @@ Qed.
 (* non-vacuity of the hypotheses of the typical case *)
 Example typical_instance : 2 ^ (8 * (32 - 2)) <= 2 ^ 255 + 12345 < 2 ^ 256.
 Proof. split; [discriminate|reflexivity]. Qed.
+
+Lemma der_roundtrip_lemma (r s : Z) :
+  0 <= r -> 0 <= s ->
+  exists d, encode_dss r s = Ok d /\ (zlen d < 2 ^ 32 -> decode_dss d = Some (Z.to_N r, Z.to_N s)).
+Proof.
+  intros Hr Hs. exists (der_sig (Z.to_N r) (Z.to_N s)). split; [|apply der_roundtrip_len].
+  unfold encode_dss.
+  assert (E : (r <? 0) || (s <? 0) = false) by (apply orb_false_iff; split; apply Z.ltb_ge; assumption).
+  rewrite E. reflexivity.
+Qed.
+
+Lemma get_signature_normalises_lemma r s cv c ks :
+  curve_ok cv c ks -> 0 <= r < 2 ^ (8 * c) -> 0 <= s < 2 ^ (8 * c) ->
+  get_signature (raw_sig c r s) (-1) = Ok (raw_sig c r s) /\
+  get_signature (raw_sig c r s) 1 = Ok (der_sig (Z.to_N r) (Z.to_N s)) /\
+  (in_window cv (zlen (der_sig (Z.to_N r) (Z.to_N s))) = true ->
+   get_signature (der_sig (Z.to_N r) (Z.to_N s)) (-1) = Ok (raw_sig c r s)).
+Proof.
+  intros HC Hr Hs. destruct (get_signature_raw r s cv c ks HC Hr Hs) as (A & _ & B).
+  split; [exact A|split; [exact B|apply (get_signature_der r s cv c ks HC Hr Hs)]].
+Qed.
+
+Lemma verify_reencode_sound_lemma r s cv c ks :
+  curve_ok cv c ks -> 0 <= r < 2 ^ (8 * c) -> 0 <= s < 2 ^ (8 * c) ->
+  verify_reencode (raw_sig c r s) ks = Ok (der_sig (Z.to_N r) (Z.to_N s)) /\
+  (in_window cv (zlen (der_sig (Z.to_N r) (Z.to_N s))) = true ->
+   verify_reencode (der_sig (Z.to_N r) (Z.to_N s)) ks = Ok (der_sig (Z.to_N r) (Z.to_N s))).
+Proof.
+  intros HC Hr Hs. split; [apply (verify_reencode_raw r s cv c ks HC Hr Hs)|apply (verify_reencode_der _ _ cv c ks HC)].
+Qed.
+
+(* ---------- exactness of the window condition (DER lengths that are not raw lengths) ---------- *)
+Lemma get_ecc_curve_cases L cv :
+  sig_get_ecc_curve L = Ok cv ->
+  exists c, lookup sig_coord_lengths cv = Some c /\ (L = 2 * c \/ in_window cv L = true).
+Proof.
+  unfold sig_get_ecc_curve, sig_coord_lengths. cbn [sig_curve_of_len].
+  change sig_raw_mul with 2. change sig_win_mul_lo with 2. change sig_win_mul_hi with 2.
+  destruct (Z.eqb_spec L (32 * 2)) as [E|E].
+  { intros H; inversion H; subst. exists 32. split; [reflexivity|left; lia]. }
+  destruct ((32 * 2 + sig_win_lo <=? L) && (L <? 32 * 2 + sig_win_hi)) eqn:W0.
+  { intros H; inversion H; subst. exists 32. split; [reflexivity|right]. unfold in_window.
+    change (lookup sig_coord_lengths 0) with (Some 32). cbv beta iota.
+    change sig_win_mul_lo with 2. change sig_win_mul_hi with 2. exact W0. }
+  destruct (Z.eqb_spec L (48 * 2)) as [E1|E1].
+  { intros H; inversion H; subst. exists 48. split; [reflexivity|left; lia]. }
+  destruct ((48 * 2 + sig_win_lo <=? L) && (L <? 48 * 2 + sig_win_hi)) eqn:W1.
+  { intros H; inversion H; subst. exists 48. split; [reflexivity|right]. unfold in_window.
+    change (lookup sig_coord_lengths 1) with (Some 48). cbv beta iota.
+    change sig_win_mul_lo with 2. change sig_win_mul_hi with 2. exact W1. }
+  destruct (Z.eqb_spec L (66 * 2)) as [E2|E2].
+  { intros H; inversion H; subst. exists 66. split; [reflexivity|left; lia]. }
+  destruct ((66 * 2 + sig_win_lo <=? L) && (L <? 66 * 2 + sig_win_hi)) eqn:W2.
+  { intros H; inversion H; subst. exists 66. split; [reflexivity|right]. unfold in_window.
+    change (lookup sig_coord_lengths 2) with (Some 66). cbv beta iota.
+    change sig_win_mul_lo with 2. change sig_win_mul_hi with 2. exact W2. }
+  discriminate.
+Qed.
+
+Lemma raw_len_of_table c cv : lookup sig_coord_lengths cv = Some c -> is_raw_len (2 * c) = true.
+Proof.
+  intros H. apply lookup_cases in H. destruct H as [[_ ->]|[[_ ->]|[_ ->]]]; reflexivity.
+Qed.
+
+(* for DER lengths that get_encoding does not mistake for raw, the window condition is exact *)
+Lemma sniff_der_exact_lemma r s cv c ks :
+  curve_ok cv c ks -> 0 <= r -> 0 <= s ->
+  zlen (der_sig (Z.to_N r) (Z.to_N s)) < 2 ^ 32 ->
+  is_raw_len (zlen (der_sig (Z.to_N r) (Z.to_N s))) = false ->
+  (sig_parse_export r s cv 1 = Ok (r, s, cv) <-> in_window cv (zlen (der_sig (Z.to_N r) (Z.to_N s))) = true).
+Proof.
+  intros HC Hr Hs HL HR. split; [|apply sniff_sound_der; assumption].
+  unfold sig_parse_export, sig_export. cbn [Z.eqb Pos.eqb]. unfold encode_dss.
+  assert (E : (r <? 0) || (s <? 0) = false) by (apply orb_false_iff; split; apply Z.ltb_ge; assumption).
+  rewrite E. cbn [bind]. unfold sig_parse, sig_get_encoding.
+  fold (is_raw_len (zlen (der_sig (Z.to_N r) (Z.to_N s)))). rewrite HR.
+  rewrite (der_roundtrip_len _ _ HL). cbn [Z.eqb Pos.eqb].
+  destruct (sig_get_ecc_curve (zlen (der_sig (Z.to_N r) (Z.to_N s)))) as [cv'|k] eqn:EC; [|discriminate].
+  intros H. assert (Hcv : cv' = cv) by congruence. subst cv'. clear H.
+  destruct (get_ecc_curve_cases _ _ EC) as (c' & Hc' & [Hraw|Hw]); [|exact Hw].
+  pose proof (raw_len_of_table c' cv Hc') as HT. rewrite <- Hraw in HT. rewrite HT in HR. discriminate.
+Qed.
+
+(* when the DER length is one of the raw lengths the bytes are read as raw halves *)
+Lemma sniff_der_rawlen_lemma r s cv :
+  0 <= r -> 0 <= s ->
+  is_raw_len (zlen (der_sig (Z.to_N r) (Z.to_N s))) = true ->
+  let d := der_sig (Z.to_N r) (Z.to_N s) in
+  sig_parse_export r s cv 1 =
+  match sig_get_ecc_curve (zlen d) with
+  | Ok cv' => Ok (from_bytes_be (take (zlen d / sig_parse_div1) d), from_bytes_be (drop (zlen d / sig_parse_div2) d), cv')
+  | Err k => Err k
+  end.
+Proof.
+  intros Hr Hs HR d. unfold sig_parse_export, sig_export. cbn [Z.eqb Pos.eqb]. unfold encode_dss.
+  assert (E : (r <? 0) || (s <? 0) = false) by (apply orb_false_iff; split; apply Z.ltb_ge; assumption).
+  rewrite E. cbn [bind]. unfold sig_parse, sig_get_encoding. fold d.
+  fold (is_raw_len (zlen d)). unfold d at 1. rewrite HR. cbn [Z.eqb]. reflexivity.
+Qed.
+
+(* ====================================================================================== *)
+(* nxpcrypto key convert -e RAW                                                             *)
+(* ====================================================================================== *)
+Definition p521_gx : Z := 2661740802050217063228768716723360960729859168756973147706671368418802944996427808491545080627771902352094241225065558662157113545570916814161637315895999846.
+Definition p521_gy : Z := 3757180025770020463545507224491183603594455134769762486694567779615544477440556316691234405012945539562144444537289428522585666729196580810124344277578376784.
+Definition p521_y1 : Z := 226550527432254644762927155718498869710358906817053425319320865507781004639099725838657309164078643711530506222673069010331048069570407113457901669103973732.
+
+Lemma cli_raw_pub_is_export x y ks : ks = 256 \/ ks = 384 -> cli_convert_raw_pub x y ks = ecc_export_nxp x y ks.
+Proof. intros [-> | ->]; reflexivity. Qed.
+
+Lemma cli_raw_pub_roundtrip_lemma x y cv c ks b pem rv :
+  curve_ok cv c ks -> cv = 0 \/ cv = 1 ->
+  0 <= x < curve_p ks -> 0 <= y < curve_p ks -> on_curve ks x y = true ->
+  cli_convert_raw_pub x y ks = Ok b -> pem_like b = false ->
+  cli_reconstruct b (pub_parse b pem None rv) = Ok (CPub (KEcc cv x y)).
+Proof.
+  intros HC Hcv Hx Hy Hon Hex Hpem.
+  assert (Hks : ks = 256 \/ ks = 384).
+  { destruct HC as [(-> & _ & ->)|[(-> & _ & ->)|(-> & _ & ->)]]; [tauto|tauto|lia]. }
+  rewrite (cli_raw_pub_is_export x y ks Hks) in Hex.
+  destruct (pub_parse_raw_ecc_lemma x y cv c ks b pem rv HC Hx Hy Hon Hex Hpem) as (P & _ & _).
+  rewrite P. reflexivity.
+Qed.
+
+Lemma pub_parse_short_fails b pem rv :
+  zlen b = 32 \/ zlen b = 48 \/ zlen b = 65 \/ zlen b = 130 -> pem_like b = false -> pub_parse b pem None rv = Err 1%N.
+Proof.
+  intros HL Hpem. unfold pub_parse. rewrite Hpem.
+  unfold ecc_recreate_from_data. change (curve_list (-1)) with ecc_curves.
+  unfold rsa_recreate_from_data, rsa_recreate_public_numbers, rsa_key_sizes. cbn [rsa_recreate_tbl].
+  destruct HL as [-> |[-> |[-> | ->]]]; reflexivity.
+Qed.
+
+Lemma cli_raw_prv_roundtrip_lemma d cv c ks pem rv :
+  curve_ok cv c ks -> cv = 0 \/ cv = 1 -> 1 <= d < curve_n ks ->
+  exists b, cli_convert_raw_prv d ks = Ok b /\
+            (pem_like b = false -> cli_reconstruct b (pub_parse b pem None rv) = Ok (CPrv cv d)).
+Proof.
+  intros HC Hcv Hd.
+  assert (K : (cv = 0 /\ c = 32 /\ ks = 256) \/ (cv = 1 /\ c = 48 /\ ks = 384)).
+  { destruct HC as [(-> & -> & ->)|[(-> & -> & ->)|(-> & -> & ->)]]; [tauto|tauto|lia]. }
+  assert (Hw : cli_raw_width ks = c) by (destruct K as [(_ & -> & ->)|(_ & -> & ->)]; reflexivity).
+  assert (Hn : curve_n ks < 2 ^ (8 * c)) by (destruct K as [(_ & -> & ->)|(_ & -> & ->)]; reflexivity).
+  assert (Hc : 0 <= c) by (destruct K as [(_ & -> & _)|(_ & -> & _)]; lia).
+  unfold cli_convert_raw_prv. rewrite Hw. rewrite to_bytes_be_ok by lia.
+  eexists. split; [reflexivity|]. intros Hpem.
+  set (b := be_enc (Z.to_nat c) (Z.to_N d)).
+  assert (HL : zlen b = c) by (unfold b, zlen; rewrite be_enc_length; lia).
+  rewrite pub_parse_short_fails; [|destruct K as [(_ & -> & _)|(_ & -> & _)]; lia|exact Hpem].
+  unfold cli_reconstruct. rewrite HL.
+  assert (Hd' : from_bytes_be b = d) by (unfold b; apply from_bytes_be_enc; lia).
+  rewrite Hd'.
+  assert (E : forall k, ((1 <=? d) && (d <? curve_n k)) = true \/ ~ d < curve_n k).
+  { intros k. destruct (Z.ltb_spec d (curve_n k)); [left|right; lia].
+    apply andb_true_iff; split; [apply Z.leb_le; lia|reflexivity]. }
+  destruct K as [(-> & -> & ->)|(-> & -> & ->)].
+  - change (key_len_curve 32) with (@Ok Z 0). cbv beta iota. change (lookup ecc_curves 0) with (Some 256). cbv beta iota.
+    change (32 <=? cli_prv_max) with true. cbv iota. destruct (E 256) as [-> | N]; [reflexivity|lia].
+  - change (key_len_curve 48) with (@Ok Z 1). cbv beta iota. change (lookup ecc_curves 1) with (Some 384). cbv beta iota.
+    change (48 <=? cli_prv_max) with true. cbv iota. destruct (E 384) as [-> | N]; [reflexivity|lia].
+Qed.
+
+(* P-521: 65-byte numbers *)
+Lemma cli_raw_p521_refuted_lemma :
+  (on_curve 521 p521_gx p521_gy = true /\ cli_convert_raw_pub p521_gx p521_gy 521 = Err 2%N) /\
+  (on_curve 521 1 p521_y1 = true /\
+   exists b, cli_convert_raw_pub 1 p521_y1 521 = Ok b /\ zlen b = 130 /\ pem_like b = false /\
+             forall rv, cli_reconstruct b (pub_parse b None None rv) = Err 1%N) /\
+  (1 <= 2 ^ 520 < curve_n 521 /\ cli_convert_raw_prv (2 ^ 520) 521 = Err 2%N) /\
+  (exists b, cli_convert_raw_prv 5 521 = Ok b /\ zlen b = 65 /\ pem_like b = false /\
+             forall rv, cli_reconstruct b (pub_parse b None None rv) = Err 1%N).
+Proof.
+  split; [split; vm_compute; reflexivity|].
+  split.
+  { split; [vm_compute; reflexivity|]. eexists. split; [vm_compute; reflexivity|].
+    split; [vm_compute; reflexivity|]. split; [vm_compute; reflexivity|]. intros [|]; vm_compute; reflexivity. }
+  split.
+  { split; [split; [discriminate|reflexivity]|vm_compute; reflexivity]. }
+  eexists. split; [vm_compute; reflexivity|].
+  split; [vm_compute; reflexivity|]. split; [vm_compute; reflexivity|]. intros [|]; vm_compute; reflexivity.
+Qed.
